@@ -183,7 +183,54 @@ def z3_templates(rng):
         conn('implies', A.rel('less', NAT, n, m), quant('exists', 'k', NAT, A.rel('equals', NAT, A.binop('plus', NAT, n, k), m))),
         conn('implies', A.rel('less', INT, FREE[INT][0], FREE[INT][1]), quant('exists', 'k', NAT, A.rel('less', NAT, k, A.num(NAT, 0)))),
     ]
+    if rng.random() < 0.4:
+        return name_clash_template(rng)
+    if rng.random() < 0.15:
+        return constructed_template(rng)
     return rng.choice(pool)
+
+
+CONSTRUCTED = {}
+
+
+def constructed_template(rng):
+    """goals whose hypotheses are true BY CONSTRUCTION for a function the bounded evaluator cannot certify
+    (g := of_nat on all naturals) and whose conclusion is false: a counter-model known by construction"""
+    g = ('var', 'gr', S.fun(NAT, REAL))
+    on = lambda t: app(c('of_nat', S.fun(NAT, REAL)), t)
+    k = rng.choice([1, 2, 3])
+    h1 = quant('all', rng.choice(['n', 'k']), NAT, A.rel('equals', REAL, app(g, ('bound', 0)), on(('bound', 0))))
+    h2 = A.rel('equals', REAL, app(g, A.num(NAT, 0)), A.num(REAL, 0))
+    h3 = A.rel('equals', REAL, app(g, A.num(NAT, k)), A.num(REAL, k))
+    goal = conn('implies', h1, conn('implies', h2, conn('implies', h3, c('false', B))))
+    CONSTRUCTED[goal] = {'env': {'gr': 'the embedding of nat into real (gr n = of_nat n for every n)'}, 'by_construction': True}
+    return goal
+
+
+def name_clash_template(rng):
+    """the translation keys its side tables (nat >= 0 facts, real shadows of of_nat arguments) by variable NAME:
+    closed goals in which an outer variable, an inner binder and a shadow name coincide"""
+    nm = rng.choice(['n', 'k', 'x', 'm'])
+    oT = rng.choice([INT, REAL])
+    z = A.num(oT, 0)
+    kind = rng.random()
+    if kind < 0.5:
+        # !nm::oT. (Q nm::nat. body) --> nm >= 0      (false for negative outer values)
+        inner_body = rng.choice([A.rel('equals', NAT, ('bound', 0), ('bound', 0)),
+                                 A.rel('greater_eq', NAT, A.binop('plus', NAT, ('bound', 0), A.num(NAT, 1)), A.num(NAT, 1)),
+                                 A.rel('equals', NAT, app(NFUN, ('bound', 0)), app(NFUN, ('bound', 0)))])
+        inner = quant(rng.choice(['all', 'exists']), nm, NAT, inner_body)
+        concl = A.rel(rng.choice(['greater_eq', 'greater']), oT, ('bound', 0), z if rng.random() < 0.7 else A.num(oT, -1))
+        body = conn('implies', inner, concl) if rng.random() < 0.7 else conn('disj', neg(inner), concl)
+        return quant('all', nm, oT, body)
+    if kind < 0.8:
+        # shadow name r<nm> of (of_nat nm) coincides with an outer real variable
+        rn = 'r' + nm
+        eq = A.rel(rng.choice(['equals', 'less_eq']), REAL, app(c('of_nat', S.fun(NAT, REAL)), ('bound', 0)), ('bound', 1))
+        return quant('all', rn, REAL, quant('all', nm, NAT, eq))
+    # same name for nested binders of different types
+    inner = quant('all', nm, NAT, A.rel('greater_eq', NAT, ('bound', 0), A.num(NAT, 0)))
+    return quant('all', nm, INT, conn('conj', inner, A.rel('greater_eq', INT, ('bound', 0), A.num(INT, 0))))
 
 
 ORACLE = [None]
@@ -259,6 +306,8 @@ def mentions(s, names):
 
 
 def classify_z3(goal):
+    if goal in CONSTRUCTED:
+        return 'z3:of_nat-of-quantified-variable-becomes-a-global-constant'
     if has_nat_binder(goal):
         return 'z3:quantifier-over-nat-not-relativised'
     ats = S.atoms(goal)
@@ -287,6 +336,9 @@ def one_step(rule, goal_t, prem_t=None):
 def run_z3_case(ctx, rng, goal, origin):
     from kernel import theory
     cm = find_countermodel(rng, goal)
+    if cm is None and goal in CONSTRUCTED:
+        cm = CONSTRUCTED[goal]
+        ctx.count('z3_countermodels_by_construction')
     if cm is not None:
         ctx.count('z3_countermodels_found')
     elif rng.random() > 0.3:
